@@ -143,6 +143,15 @@ type gcBlockstore struct {
 	GCLocker
 }
 
+var _ AllKeysChanWithErrer = gcBlockstore{}
+
+// AllKeysChanWithErr implements [AllKeysChanWithErrer] by forwarding to the
+// wrapped Blockstore, so that a cache layered on top of a GCBlockstore still
+// learns when the key enumeration ended early.
+func (bs gcBlockstore) AllKeysChanWithErr(ctx context.Context) (<-chan cid.Cid, func() error, error) {
+	return allKeysChanWithErrFor(ctx, bs.Blockstore)
+}
+
 // Option is a default implementation Blockstore option
 type Option struct {
 	f func(bs *blockstore)
